@@ -784,9 +784,32 @@ fn ctor_case(which: u8, scheme: &Scheme, k: usize, w: usize, e: &Entry, x: &[u8]
     let sub = scheme.subst;
     let f = move |a: u8, b: u8| sub.score(a, b);
     let (go, ge) = (scheme.gap_open, scheme.gap_extend);
-    let name = if which == 0 { "Aligner::new" } else { "Aligner::with_capacity" };
+    let name = match which {
+        0 => "Aligner::new",
+        1 => "Aligner::with_capacity",
+        _ => "with_scoring+foreign-match_scores",
+    };
     let got = guard(|| {
-        let mut a = if which == 0 { banded::Aligner::new(go, ge, f, k, w) } else { banded::Aligner::with_capacity(x.len() + 1, y.len() / 2, go, ge, f, k, w) };
+        let mut a = match which {
+            0 => banded::Aligner::new(go, ge, f, k, w),
+            1 => banded::Aligner::with_capacity(x.len() + 1, y.len() / 2, go, ge, f, k, w),
+            // a struct literal whose match_scores hint does not describe match_fn: the hint may
+            // steer the band heuristic, the scores must still be those of match_fn
+            _ => banded::Aligner::with_scoring(
+                Scoring {
+                    gap_open: go,
+                    gap_extend: ge,
+                    match_fn: f,
+                    match_scores: if sub.match_scores() == Some((1, -1)) { Some((2, -3)) } else { Some((1, -1)) },
+                    xclip_prefix: MIN_SCORE,
+                    xclip_suffix: MIN_SCORE,
+                    yclip_prefix: MIN_SCORE,
+                    yclip_suffix: MIN_SCORE,
+                },
+                k,
+                w,
+            ),
+        };
         call_entry(&mut a, e, x, y, k, &matches)
     });
     match got {
@@ -834,7 +857,7 @@ fn ctor_unit(tier: Tier, shard: usize, ctx: &mut Ctx) {
                 };
                 for x in &strs {
                     for y in &strs {
-                        for which in 0..2u8 {
+                        for which in 0..3u8 {
                             for e in &entries {
                                 ctx.case(
                                     || json!({"kind": "constructor", "which": which, "scheme": scheme, "k": k, "w": w, "entry": e, "x": show(x), "y": show(y)}),
